@@ -1,0 +1,12 @@
+//go:build verif
+
+// Verification hooks (build tag "verif" only; add-only; nothing here is compiled into normal builds).
+package standard
+
+// VerifC20SlotDataRecordsLen is the number of slots for which sync committee message data is held.
+func (s *Service) VerifC20SlotDataRecordsLen() int {
+	s.slotDataRecordsMu.Lock()
+	defer s.slotDataRecordsMu.Unlock()
+
+	return len(s.slotDataRecords)
+}
